@@ -156,8 +156,8 @@ pub fn faults_for(proto: &Proto, exhaustive_lengths: bool, bit_stride: usize) ->
         }
         f.push(Fault { at: rpos, ops: vec![Op::HsWrite { side: r, plen, cap: Cap::Roomy }], kind: "out-of-turn write", omit_psk: None });
     }
-    // ---- transport phase (ops after the 2n handshake ops and the 2 conversions)
-    let t0 = 2 * n + 2;
+    // ---- transport phase (ops after the 2n handshake ops, the 2 raw-split queries and the 2 conversions)
+    let t0 = 2 * n + 4;
     let oneway = proto.pattern.is_oneway();
     let n_t = if oneway { 3 } else { 6 };
     for j in 0..n_t {
@@ -367,8 +367,8 @@ fn seq_spec(proto: &Proto, depth_extra: usize, devs: usize) -> SeqSpec {
     });
     let total = h.len();
     let hh3 = h;
-    let goal = Arc::new(move |e: &Exec| e.steps.iter().filter(|s| s.real.is_ok() && hh3.contains(&s.op)).count() >= total.min(2 * n + 4));
-    SeqSpec { cfg, prefix: vec![], max_depth: 2 * n + 2 + depth_extra, max_devs: devs, alphabet, judge, goal }
+    let goal = Arc::new(move |e: &Exec| e.steps.iter().filter(|s| s.real.is_ok() && hh3.contains(&s.op)).count() >= total.min(2 * n + 6));
+    SeqSpec { cfg, prefix: vec![], max_depth: 2 * n + 4 + depth_extra, max_devs: devs, alphabet, judge, goal }
 }
 
 pub fn run(tier: Tier) -> i32 {
